@@ -20,6 +20,8 @@ Definition sub {A} (l : list A) (start size : N) : list A :=
 (* Go conversions: int64 -> uint64 and the uint64 wrap, on Z *)
 Definition two64 : Z := 18446744073709551616%Z.
 Definition u64z (z : Z) : N := Z.to_N (z mod two64).
+(* int64(x) of a uint64 x *)
+Definition i64n (x : N) : Z := if x <? 9223372036854775808 then Z.of_N x else (Z.of_N x - two64)%Z.
 
 (* ------------------------------------------------------------------ io.ReadSeeker *)
 Record rsk := mkRS { rpos : N; rorc : list N }.
@@ -44,8 +46,8 @@ Definition rs_seek_start (r : rsk) (off : Z) : res rsk :=
   if (off <? 0)%Z then Err else Ok (mkRS (Z.to_N off) (rorc r)).
 
 Definition rs_seek_cur (r : rsk) (off : Z) : res rsk :=
-  let p := (Z.of_N (rpos r) + off)%Z in
-  if (p <? 0)%Z then Err else Ok (mkRS (Z.to_N p) (rorc r)).
+  let p := (Z.of_N (rpos r) + off)%Z in        (* int64 addition: a sum >= 2^63 wraps to a negative position *)
+  if (p <? 0)%Z || (9223372036854775807 <? p)%Z then Err else Ok (mkRS (Z.to_N p) (rorc r)).
 
 (* io.ReadFull(r, buf) with len(buf) - n = left.  RfEOF: io.EOF (nothing read at all),
    RfErr: io.ErrUnexpectedEOF. *)
@@ -162,7 +164,7 @@ Definition read_box_body (file : list N) (r : rsk) (h : boxhdr) : res (list N * 
   if hlen h =? hsize h then Ok ([], r)
   else
     let bodyLen := hsize h - hlen h in
-    let body := sub file (rpos r) bodyLen in
+    let body := sub file (rpos r) (N.min bodyLen (lenN file)) in   (* at most the whole file can be read *)
     if lenN body =? bodyLen then Ok (body, mkRS (rpos r + bodyLen) (rorc r)) else Err.
 
 (* DecodeMdat / DecodeMdatLazily *)
@@ -180,7 +182,7 @@ Definition decode_box_mdat (lazy : bool) (file : list N) (zeof : bool) (startPos
   | RfOk (h, r1) =>
       if lazy then
         let m := decode_mdat_lazily h startPos in
-        match rs_seek_cur r1 (Z.of_N (hsize h) - Z.of_N (hlen h)) with
+        match rs_seek_cur r1 (i64n (hsize h) - Z.of_N (hlen h)) with
         | Ok r2 => RfOk (m, r2)
         | _ => RfErr
         end
@@ -315,8 +317,7 @@ Definition move_seg (guard : bool) (file : list N) (zeof : bool) (m : mdat) (wor
   : res mstate :=
   let '(offset, size) := seg in
   if is_lazy m then
-    do r1 <- rs_seek_start (ms_rs st) (if offset <? 9223372036854775808 then Z.of_N offset
-                                       else (Z.of_N offset - two64)%Z);   (* int64(offset) *)
+    do r1 <- rs_seek_start (ms_rs st) (i64n offset);
     if workLen =? 0 then
       do (d, r2) <- copy_n file zeof r1 (Z.of_N size);
       Ok (mkMS r2 (ms_buf st) (ms_pos st) (ms_out st ++ d))
@@ -373,7 +374,7 @@ Definition decode_box_top (lazy : bool) (file : list N) (zeof : bool) (startPos 
       if eqb_list (hname h) name_mdat then
         if lazy then
           let m := decode_mdat_lazily h startPos in
-          match rs_seek_cur r1 (Z.of_N (hsize h) - Z.of_N (hlen h)) with
+          match rs_seek_cur r1 (i64n (hsize h) - Z.of_N (hlen h)) with
           | Ok r2 => RfOk (TMdat m (fst (mdat_size m)), r2)
           | _ => RfErr
           end
